@@ -105,6 +105,8 @@ struct G<'a> {
     /// index of a rule whose body is a choice of strings (skipper inlining), if any
     needle_rule: Option<usize>,
     stack_rule: Option<(String, RuleType)>,
+    /// (grammar-extras) this grammar pushes only through PUSH_LITERAL, never through PUSH(..)
+    literal_push_only: bool,
 }
 
 pub fn gen_grammar(rng: &mut Rng, cfg: &GenCfg) -> Vec<Rule> {
@@ -145,6 +147,7 @@ pub fn gen_grammar(rng: &mut Rng, cfg: &GenCfg) -> Vec<Rule> {
         None
     };
     let needle_rule = if n >= 2 && rng.chance(1, 3) { Some(n - 1) } else { None };
+    let literal_push_only = cfg!(feature = "grammar-extras") && cfg.extras && cfg.profile == Profile::Full && rng.chance(1, 8);
     let mut rules = vec![];
     let total = names.len();
     let mut tys: Vec<RuleType> = vec![];
@@ -175,6 +178,7 @@ pub fn gen_grammar(rng: &mut Rng, cfg: &GenCfg) -> Vec<Rule> {
             tag_n: 0,
             needle_rule,
             stack_rule: stack_rule.as_ref().map(|r| (r.0.clone(), r.1)),
+            literal_push_only,
         };
         let expr = if Some(i) == needle_rule && !is_skip {
             // a rule the skipper can inline: a choice of plain strings
@@ -220,6 +224,18 @@ fn skip_ty(rng: &mut Rng, cfg: &GenCfg) -> RuleType {
 }
 
 impl<'a> G<'a> {
+    /// `PUSH(inner)`, or in a literal-push-only grammar `PUSH_LITERAL(..) ~ inner`.
+    fn mk_push(&mut self, inner: Expr) -> Expr {
+        #[cfg(feature = "grammar-extras")]
+        {
+            if self.literal_push_only {
+                let lit = self.rng.pick(&["a", "b", "ab", "", "é"]).to_string();
+                return Expr::Seq(Box::new(Expr::PushLiteral(lit)), Box::new(inner));
+            }
+        }
+        Expr::Push(Box::new(inner))
+    }
+
     fn stack_ok(&self) -> bool {
         self.cfg.profile == Profile::Full || self.cfg.stack_anyway
     }
@@ -456,7 +472,10 @@ impl<'a> G<'a> {
             }
             9 => {
                 if self.stack_ok() {
-                    Expr::Push(Box::new(self.gen(d - 1, lm, need)))
+                    {
+                        let inner = self.gen(d - 1, lm, need);
+                        self.mk_push(inner)
+                    }
                 } else {
                     self.leaf(lm, need)
                 }
@@ -630,7 +649,7 @@ impl<'a> G<'a> {
                 let mut e: Option<Expr> = None;
                 for _ in 0..pushes {
                     let inner = self.gen(0, lm && e.is_none(), Need::Consume);
-                    let p = Expr::Push(Box::new(inner));
+                    let p = self.mk_push(inner);
                     e = Some(match e {
                         None => p,
                         Some(prev) => Expr::Seq(Box::new(prev), Box::new(p)),
@@ -654,7 +673,10 @@ impl<'a> G<'a> {
                         0 => Expr::Ident("POP".into()),
                         1 => Expr::Ident("DROP".into()),
                         2 => Expr::Ident("POP_ALL".into()),
-                        3 => Expr::Push(Box::new(g.terminal_consuming())),
+                        3 => {
+                            let t = g.terminal_consuming();
+                            g.mk_push(t)
+                        }
                         4 => Expr::Seq(Box::new(Expr::Ident("DROP".into())), Box::new(Expr::Ident("DROP".into()))),
                         _ => Expr::Seq(Box::new(Expr::Ident("POP".into())), Box::new(Expr::Ident("POP".into()))),
                     };
@@ -702,10 +724,8 @@ impl<'a> G<'a> {
                     1 => Expr::Ident("PEEK".into()),
                     _ => Expr::Seq(Box::new(Expr::Ident("PEEK".into())), Box::new(Expr::Ident("DROP".into()))),
                 };
-                Some(Expr::Seq(
-                    Box::new(Expr::Push(Box::new(inner))),
-                    Box::new(Expr::Seq(Box::new(mid), Box::new(tail))),
-                ))
+                let pushed = self.mk_push(inner);
+                Some(Expr::Seq(Box::new(pushed), Box::new(Expr::Seq(Box::new(mid), Box::new(tail)))))
             }
         }
     }
